@@ -3,7 +3,8 @@ import SSVerif.Model.Align
 # M11b — the wrapper `decoder_alignment` (decoder.c:756-825) around the second pass
 
 Core Lean only.  The model is the code of /repo HEAD (with the repairs D29 — the second pass is stepped only up to the
-end of the first-pass hypothesis — and D70 — `decoder_end_utt` disposes of the aligner):
+end of the first-pass hypothesis —, D70 — `decoder_end_utt` disposes of the aligner — and D130 — so does every call that
+replaces or re-initialises `d->search`: `replaceSearch`):
 
 ```
 if (d->align && align->frame == acmod->output_frame) return align->al;        -- reuse shortcut
@@ -116,6 +117,12 @@ def startUtt (d : Dec) : Dec := { d with align := none, outFrame := 0 }
 
 /-- `decoder_end_utt`: the aligner is disposed of (D70) -/
 def endUtt (d : Dec) : Dec := { d with align := none }
+
+/-- the decoder's search is replaced or re-initialised — `decoder_set_fsg` after the new search was created (and through
+it `decoder_set_jsgf_string`/`_file`, `decoder_set_align_text`), `decoder_add_word(update = TRUE)`: the result the
+aligner was computed from is gone, the aligner is disposed of (D130).  A refused grammar (no new search) is not this
+event: it leaves the decoder, its result and the aligner alone. -/
+def replaceSearch (d : Dec) : Dec := { d with align := none }
 
 /-- `decoder_process_*` / the remaining frames searched by `decoder_end_utt`: the acoustic model has moved on -/
 def advance (d : Dec) (outFrame nAlloc : Nat) : Dec := { d with outFrame, nAlloc }
